@@ -10,6 +10,7 @@ streams also go through ParserQueue.put_bytes/poll/iterpoll/get.
 """
 import itertools
 import random
+import types
 import threading
 
 import mido
@@ -142,21 +143,36 @@ def _run_case(ctx, data, cuts, conts, rseed, use_ctor=False):
             if parser is None:
                 if use_ctor:
                     parser = Parser(arg)
+                    held = None
                 else:
                     parser = Parser()
-                    parser.feed(arg)
+                    # a caller may look the methods (and the public message deque) up once and keep them - as the ports do
+                    held = types.SimpleNamespace(get=parser.get_message, pending=parser.pending, feed=parser.feed,
+                                                 feed_byte=parser.feed_byte, messages=parser.messages) if rng.random() < 0.4 else None
+                    (held.feed if held else parser.feed)(arg)
             elif len(chunk) == 1 and rng.random() < 0.5:
-                parser.feed_byte(chunk[0])
+                (held.feed_byte if held else parser.feed_byte)(chunk[0])
             else:
-                parser.feed(arg)
+                (held.feed if held else parser.feed)(arg)
             pos += len(chunk)
             # retrieval program
             for _ in range(rng.choice((0, 0, 1, 2, 3))):
                 if ci < len(chunks) - 1:
                     between_calls += 1
-                op = rng.choice(('get', 'pending', 'len', 'next', 'list', 'newiter', 'dropiter'))
-                if op == 'get':
-                    m = parser.get_message()
+                op = rng.choice(('get', 'pending', 'len', 'next', 'list', 'newiter', 'dropiter') + (('deque', 'deque') if held else ()))
+                if op == 'deque':
+                    # the deque itself, as BaseInput.receive() uses it: its length is pending(), popleft() is get_message()
+                    v = len(held.messages)
+                    ctx.check('pending == produced - retrieved', v == expect_pending(), 'held-deque-length', case,
+                              lambda: {'len(messages)': v, 'model': expect_pending()})
+                    if v:
+                        m = held.messages.popleft()
+                        ctx.check('retrieved == reference (FIFO)', retrieved < len(ref) and m == ref[retrieved], 'fifo:held-deque', case,
+                                  lambda: {'got': repr(m), 'want': repr(ref[retrieved:retrieved + 1])})
+                        got.append(m)
+                        retrieved += 1
+                elif op == 'get':
+                    m = (held.get if held else parser.get_message)()
                     exp = expect_pending()
                     ctx.check('get_message None iff none pending', (m is None) == (exp == 0),
                               'get_message-none', case, lambda: {'pending_model': exp, 'got': repr(m)})
@@ -167,7 +183,7 @@ def _run_case(ctx, data, cuts, conts, rseed, use_ctor=False):
                         got.append(m)
                         retrieved += 1
                 elif op == 'pending':
-                    v = parser.pending()
+                    v = (held.pending if held else parser.pending)()
                     ctx.check('pending == produced - retrieved', v == expect_pending(),
                               'pending', case, lambda: {'pending()': v, 'model': expect_pending()})
                 elif op == 'len':
